@@ -118,13 +118,15 @@ def gen_cfg_nomono(rng, max_vertices=72):
 KERNEL_CLASSES = ["random", "random", "far", "ties", "sorted", "antisorted", "constant", "noise"]
 
 
-def gen_kernel(rng, cfg, klass):
+def gen_kernel(rng, cfg, klass, unit_scale=True):
+  """unit_scale=False keeps every column at its base magnitude (|v| <= 8 and multiples of 1/8 for the classes other
+  than 'far' / 'sorted' / 'antisorted' / 'noise', which stay below 16): the kernels of the float32 cases."""
   n = int(np.prod(cfg["sizes"]))
   units = cfg["units"]
   idx = list(itertools.product(*[range(s) for s in cfg["sizes"]]))
   cols = []
   for u in range(units):
-    scale = [1.0, 8.0, 0.125][u % 3]  # columns of different magnitude (unit interaction visible)
+    scale = [1.0, 8.0, 0.125][u % 3] if unit_scale else 1.0  # columns of different magnitude (unit interaction visible)
     if klass == "far":
       col = [tfimpl.dy(rng, -64, 64) for _ in range(n)]
     elif klass == "ties":
@@ -142,6 +144,143 @@ def gen_kernel(rng, cfg, klass):
       col = [tfimpl.dy(rng) for _ in range(n)]
     cols.append([x * scale for x in col])
   return [[cols[u][i] for u in range(units)] for i in range(n)]
+
+
+# ----------------------------------------------------------------------------------------------------------------
+# RICH feasible kernels for an arbitrary configuration
+# ----------------------------------------------------------------------------------------------------------------
+def exactly_feasible(w, cfg, with_bounds=True):
+  """Every configured shape constraint (all eight families) and - optionally - the bounds hold EXACTLY. The numpy
+  predicates are exact on the kernels built here (dyadic entries, at most ~35 significant bits, sums of <= 4)."""
+  import latpred  # pylint: disable=g-import-not-at-top
+  w = np.asarray(w, dtype=np.float64)
+  if latpred.all_viols(w, cfg) > 0.0:
+    return False
+  return not with_bounds or latpred.bounds_viol(w, cfg["omin"], cfg["omax"]) <= 0.0
+
+
+def _rich_start(rng, cfg):
+  """Integer start column (a multiple-of-1/8 kernel of one of the usual classes, times 8)."""
+  klass = rng.choice(["random", "random", "ties", "sorted", "noise", "antisorted"])
+  col = [row[0] for row in gen_kernel(rng, dict(cfg, units=1), klass)]
+  return np.array([round(8.0 * v) for v in col], dtype=np.float64)
+
+
+def _snap_to_integers(p, max_den=5000, max_lcm=2 ** 14):
+  """The exact projection of an integer vector onto a polyhedral cone with small integer / half-integer rows has
+  rational entries. Recovers them from the float64 solution and returns D * p as exact integers (D = common
+  denominator): a positive multiple of a point of a cone is in the cone, with the same active constraints.
+  None when the entries are not recognisably rational with a small common denominator."""
+  from fractions import Fraction  # pylint: disable=g-import-not-at-top
+  import math  # pylint: disable=g-import-not-at-top
+  frs = [Fraction(float(v)).limit_denominator(max_den) for v in p]
+  if max(abs(float(f) - float(v)) for f, v in zip(frs, p)) > 1e-9:
+    return None
+  den = 1
+  for f in frs:
+    den = den * f.denominator // math.gcd(den, f.denominator)
+    if den > max_lcm:
+      return None
+  return np.array([float(int(f * den)) for f in frs], dtype=np.float64)
+
+
+def _rich_column(rng, cfg1, A, how):
+  """One column that meets every HOMOGENEOUS family of cfg1 exactly (bounds are fitted afterwards), or None.
+  how == 'exact': integer multiple of the exact Euclidean projection of an integer start kernel (constraints that
+            the projection makes active - ties, flat Edgeworth squares, equal dominance triangles - stay EXACTLY
+            active);
+  how == 'round': 0.75 * projection + 0.25 * mean, every entry rounded to a multiple of 2^-10 (constraints are
+            active, nearly active by 2^-10, or slack)."""
+  import latpred  # pylint: disable=g-import-not-at-top
+  start = _rich_start(rng, cfg1)
+  proj = latpred.nearest_feasible(start, A)
+  if how == "exact":
+    col = _snap_to_integers(proj)
+    if col is None:
+      return None
+  else:
+    y = 0.75 * proj + 0.25 * float(np.mean(proj))
+    col = np.round(y * 128.0)   # the start is in units of 1/8: value = y / 8, rounded to a multiple of 2^-10
+  if not exactly_feasible(col[:, None], cfg1, with_bounds=False):
+    return None
+  return col
+
+
+def _fit(rng, col, omin, omax):
+  """Positive power-of-two scaling plus a dyadic shift (both keep every homogeneous constraint and its active set)
+  that bring an integer column to amplitude <= 8 and inside the bounds; where possible an end of the range sits
+  exactly ON a bound. Optionally clipped further by the caller."""
+  lo, hi = float(col.min()), float(col.max())
+  span = hi - lo
+  room = rng.choice([2.0, 4.0, 8.0])
+  if omin is not None and omax is not None:
+    room = min(room, omax - omin)
+  if room <= 0.0:
+    return None
+  k = 0
+  while span * 2.0 ** -k > room:
+    k += 1
+  col = (col - lo) * 2.0 ** -k          # min 0, max span * 2^-k <= room
+  top = span * 2.0 ** -k
+  if omin is not None and omax is not None:
+    free = (omax - omin) - top
+    base = omin + rng.choice([0.0, 0.0, free, np.floor(free * 4.0) / 8.0])
+  elif omin is not None:
+    base = omin + rng.choice([0.0, 0.0, 0.5, 2.0])
+  elif omax is not None:
+    base = omax - top - rng.choice([0.0, 0.0, 0.5, 2.0])
+  else:
+    base = np.floor(-top * 4.0) / 8.0 + rng.randint(-16, 16) / 8.0
+  return col + base
+
+
+def feasible_rich(rng, cfg, with_bounds=True, tries=8):
+  """A kernel (rows = vertices, one column per unit) that satisfies EVERY configured constraint of cfg exactly -
+  monotonicities, unimodalities, Edgeworth / trapezoid trusts, monotonic / range dominances, joint monotonicities /
+  unimodalities and (with_bounds) the output bounds - and is neither constant nor additive in general: per unit a
+  random start kernel is projected onto the constraint polyhedron with the independent NNLS routine
+  (latpred.constraint_rows over all eight families + latpred.nearest_feasible), made exactly representable (see
+  _rich_column), fitted into the bounds by a power-of-two scaling and a dyadic shift, sometimes clipped to a tighter
+  box (plateaus on a bound), and RE-CHECKED with the exact predicates; a candidate that fails the re-check is
+  dropped and another start is tried. Returns (kernel as list of rows, tag) or (None, None)."""
+  import latpred  # pylint: disable=g-import-not-at-top
+  cfg1 = dict(cfg, units=1)
+  A = latpred.constraint_rows(cfg1, latpred.ALL_FAMILIES)
+  omin, omax = (cfg["omin"], cfg["omax"]) if with_bounds else (None, None)
+  cols, tags = [], []
+  for u in range(cfg["units"]):
+    done = None
+    for _ in range(tries):
+      how = rng.choice(["exact", "exact", "round"])
+      col = _rich_column(rng, cfg1, A, how)
+      if col is None or float(col.max()) == float(col.min()):
+        continue
+      if rng.random() < 0.3:
+        # clip between two of its own values: plateaus (monotonicity survives a clip, the other families only
+        # sometimes: re-check)
+        vals = sorted(set(float(v) for v in col))
+        if len(vals) >= 3:
+          a = vals[rng.randint(0, (len(vals) - 1) // 3)]
+          b = vals[len(vals) - 1 - rng.randint(0, (len(vals) - 1) // 3)]
+          q = np.clip(col, a, b)
+          if b > a and exactly_feasible(q[:, None], cfg1, with_bounds=False):
+            col, how = q, how + "+clip"
+      y = _fit(rng, col, omin, omax)
+      if y is None:
+        continue
+      if not (omin is not None or omax is not None) and cfg["units"] > 1:
+        y = y * [1.0, 8.0, 0.125][u % 3]   # unit columns of different magnitude (only without shared bounds)
+      if exactly_feasible(y[:, None], dict(cfg1, omin=omin, omax=omax), with_bounds=True):
+        done = y
+        tags.append(how)
+        break
+    if done is None:
+      return None, None
+    cols.append(done)
+  W = np.stack(cols, axis=1)
+  if not exactly_feasible(W, dict(cfg, omin=omin, omax=omax), with_bounds=True):
+    return None, None
+  return [[float(x) for x in row] for row in W], "/".join(sorted(set(tags)))
 
 
 def tuples(lst):
